@@ -12,6 +12,10 @@ Stage B: (ii) every edge (source value, operation, arguments) of the window mode
          65 536-value chunks (all 256 chunks = all 2^24 states in thorough) folded by the driver into
          weighted sums modulo three primes, the same fold of the specification operator by TLC.
 Stage C: all events validated by TLC against spec/trace/Trace_C11.tla, which tracks the counter value.
+Events are single public calls; the driver performs no reads of its own: which reads (Get/SQN/Overflow) happen,
+when and in which order is part of every history (TLC's behaviours contain reads as steps, the harness appends
+read patterns in varying orders, some histories read everything after every step, others run 2..300 increments
+across a boundary before the first read), and every returned value is judged against the tracked value.
 Verdict: only values returned by Get/SQN/Overflow; the raw word is information."""
 import json, os, sys
 sys.path.insert(0, os.path.dirname(os.path.dirname(os.path.abspath(__file__))))
@@ -30,8 +34,34 @@ SET_ARGS = [(0, 0), (255, 1), (32768, 128), (65535, 255)]
 READS = ("Get", "SQN", "Overflow")
 
 
+# read patterns appended after a write (the same list as in the driver); the first eight determine the whole value
+PATTERNS = [["SQN", "Overflow", "Get", "SQN", "Overflow"], ["Get"], ["SQN", "Overflow"], ["Overflow", "SQN"], ["Get", "SQN", "Overflow"],
+            ["SQN", "Get", "SQN", "Overflow"], ["Overflow", "Get", "Overflow", "SQN"], ["Get", "Get", "Overflow", "SQN"], ["SQN"], ["Overflow"], []]
+FULL = 8
+M24 = 1 << 24
+
+
+def rd(k):
+    return [dict(op=r, a=0, b=0) for r in PATTERNS[k]]
+
+
+def expand(op, a, b):
+    """a generator step as public calls: AddRun(k) = k AddOne in a row"""
+    return [dict(op="AddOne", a=0, b=0)] * a if op == "AddRun" else [dict(op=op, a=a, b=b)]
+
+
+def model(op, a, b, x):
+    """python mirror of NasCount!Apply - used ONLY to count distinct (value, operation) pairs for the coverage figures"""
+    if x is None and op != "Set": return None
+    if op == "Set": return a * 256 + b
+    if op == "SetSQN": return (x // 256) * 256 + a
+    if op == "SetOverflow": return a * 256 + x % 256
+    if op == "AddOne": return (x + 1) % M24
+    return x
+
+
 def digest_ops():
-    ops = [dict(op="AddOne", a=0, b=0)]
+    ops = [dict(op="AddOne", a=0, b=0)] + [dict(op="AddRun", a=k, b=0) for k in (2, 3, 257)]
     ops += [dict(op="SetSQN", a=s, b=0) for s in SQN_ARGS]
     ops += [dict(op="SetOverflow", a=o, b=0) for o in OVF_ARGS]
     ops += [dict(op="Set", a=o, b=s) for o, s in SET_ARGS]
@@ -77,14 +107,17 @@ def run(c):
     hists = []
     for k, (pre, es) in enumerate(sorted(by_src.items())):
         ops = []
-        for e in es:
-            ops.append(dict(op=e["op"], a=e["a"], b=e["b"]))
+        for j, e in enumerate(es):
+            ops += expand(e["op"], e["a"], e["b"])
+            # every sixth source value reads everything after every step; the others a varying, value-determining pattern
+            ops += rd(0 if k % 6 == 0 else (j + k) % FULL)
             ops.append(dict(op="Set", a=pre // 256, b=pre % 256))       # back to the source value (public API)
+            if k % 6 == 0: ops += rd(0)
         hists.append(dict(via=("set" if k % 2 == 0 else "raw"), v=pre, ops=ops))
     n_edges = len(edges)
     # ---- stage B (i): TLC-simulated walks from seeded start values
     starts = sorted({c.rng.randrange(1 << 24) for _ in range(24)} | {0, 255, 65535, 65536 * 128 - 1, (1 << 24) - 1, (1 << 24) - 256})
-    simcfg = ("SPECIFICATION GSpec\nCONSTANTS SqnArgs <- McSqn OvfArgs <- McOvf SetArgs <- McSet OneStep = FALSE\n"
+    simcfg = ("SPECIFICATION GSpec\nCONSTANTS SqnArgs <- SimSqn OvfArgs <- SimOvf SetArgs <- SimSet OneStep = FALSE\n"
               "CONSTANT Starts = {%s}\nINVARIANTS TypeOK Composed StepOK\nCHECK_DEADLOCK FALSE\n" % ", ".join(map(str, starts)))
     open(os.path.join(sd, "MC_C11_sim.cfg"), "w").write(simcfg)
     nsim, depth = (400, 50) if not thorough else (2000, 80)
@@ -94,7 +127,9 @@ def run(c):
         h = dict(via=("set" if nsimh % 2 == 0 else "raw"), v=beh[0][1]["c"], ops=[])
         for _, st in beh[1:]:
             la = st["last"]
-            h["ops"].append(dict(op=la["op"], a=la["a"], b=la["b"]))
+            h["ops"] += expand(la["op"], la["a"], la["b"])           # the behaviour's own reads are steps like the others
+            if nsimh % 4 == 0: h["ops"] += rd(0)                     # every fourth walk: full reads after every step
+        h["ops"] += rd(nsimh % FULL)                                 # the final value is always read, in varying order
         hists.append(h); nsimh += 1
     if nsimh < nsim // 2:
         raise Infra("simulation produced too few behaviours (%d):\n%s" % (nsimh, res.out[-1500:]))
@@ -127,37 +162,38 @@ def run(c):
     mism = c.validate("Trace_C11", events, stateful=True, shards=10)
     dmism = c.validate("Trace_C11", devents, stateful=False, shards=min(12, max(2, len(devents) // 20)), timeout=3000)
 
-    # binding self-test: one corrupted observation in a real history must be rejected at exactly that event
-    first = next(i for i in range(1, len(events)) if '"TraceReset"' in events[i][:40])
-    sl = list(events[:first]); k = len(sl) - 1
-    ce = json.loads(sl[k]); ce["ovf2"] ^= 1; sl[k] = json.dumps(ce)
-    bm = c.validate("Trace_C11", sl, stateful=True, shards=1)
-    c.cov["traces_validated_against_impl"] -= len(sl)
-    if [i for i, _ in bm] != [k]:
-        raise Infra("binding self-test failed: corrupted event %d, TLC rejected %r" % (k, [i for i, _ in bm]))
-    c.cov["binding_selftest"] = "second Overflow() reading of event %d of a replayed history corrupted by one bit: rejected by TLC at exactly that event" % (k + 1)
-
     def history_events(idx):
         lo = idx
         while lo > 0 and '"TraceReset"' not in events[lo][:40]: lo -= 1
         return [json.loads(x) for x in events[lo:idx + 1]]
 
-    def cls_of(e, expected):
-        """which observable is wrong, from the logged event (classification only, TLC made the verdict)"""
+    READS = ("Get", "SQN", "Overflow")
+    WRONG = dict(Get="get-wrong", SQN="sqn-wrong", Overflow="overflow-wrong")
+
+    def cls_apply(e, expected):
+        """Apply event (whole observation): which observable is wrong (classification only, TLC made the verdict)"""
         if expected is None or expected < 0: return "inconsistent-reads"
-        op = e["fn"] if e["op"] == "Apply" else e["op"]
         if e["get"] != expected: return "get-wrong"
-        if e["sqn"] != expected % 256 or e["sqn2"] != expected % 256: return "sqn-wrong"
-        if e["ovf"] != expected // 256 or e["ovf2"] != expected // 256: return "overflow-wrong"
+        if e["sqn"] != expected % 256 or e["ovf"] != expected // 256: return "sqn-overflow-wrong-before-get"
+        if e["sqn2"] != expected % 256 or e["ovf2"] != expected // 256: return "sqn-overflow-changed-by-get"
         return "return-wrong"
 
     def classify(idx, t):
+        """a read returned a value that is not the tracked one.  Label: the last write before it; class: which read,
+        and whether another read had been accepted since that write (then a read changed the value)"""
         evs = history_events(idx)
         e, h = evs[-1], hist_of(evs)
-        exp = t[3] if isinstance(t[3], int) else None
-        return (e["op"], cls_of(e, exp),
-                "from value %s, %s(%s,%s): expected value %s, observed Get=%s SQN=%s Overflow=%s returned=%s (history of %d operations, start %s %d)" % (
-                    t[2], e["op"], e["a"], e["b"], t[3], e["get"], e["sqn"], e["ovf"], e["ret"], len(h["ops"]), h["via"], h["v"]),
+        j = len(evs) - 2
+        while j > 0 and evs[j]["op"] in READS: j -= 1
+        lastw = evs[j]
+        between = [x["op"] for x in evs[j + 1:-1]]
+        cls = WRONG.get(e["op"], "inconsistent-reads") + ("-after-read" if between else "")
+        nrun = 0
+        while j - nrun > 0 and evs[j - nrun]["op"] == "AddOne": nrun += 1
+        return (lastw["op"], cls,
+                "%s() returned %s where the counter value is %s (expected %s); last write %s(%s,%s)%s, reads since then: %s; history of %d calls, start %s %d" % (
+                    e["op"], e["ret"], t[2], t[3], lastw["op"], lastw["a"], lastw["b"], (" ending a run of %d increments" % nrun) if nrun > 1 else "",
+                    between or "none", len(h["ops"]), h["via"], h["v"]),
                 dict(history=h, observed=e, how="harness/cmd/nascount replay [history] out.ndjson; validate with spec/trace/Trace_C11"))
 
     def confirm_hist(h):
@@ -195,34 +231,59 @@ def run(c):
             continue
         def xclassify(i, t, xev=xev, fn=fn, via=via):
             e = json.loads(xev[i])
-            h = dict(via=via, v=e["pre"], ops=[dict(op=fn, a=e["a"], b=e["b"])])
-            return (fn, cls_of(e, t[3] if isinstance(t[3], int) else None),
+            h = dict(via=via, v=e["pre"], ops=expand(fn, e["a"], e["b"]) + rd(0))
+            return (fn, cls_apply(e, t[3] if isinstance(t[3], int) else None),
                     "from value %d, %s(%d,%d): expected value %s, observed Get=%s SQN=%s Overflow=%s returned=%s; %d of 65536 values of chunk %d differ, %d chunk(s) differ" % (
                         e["pre"], fn, e["a"], e["b"], t[3], e["get"], e["sqn"], e["ovf"], e["ret"], len(xm), k, len(ks)),
                     dict(history=h, observed=e, how="harness/cmd/nascount replay [history] out.ndjson; validate with spec/trace/Trace_C11"))
         def xconfirm(i, t, xev=xev, fn=fn, via=via):
             e = json.loads(xev[i])
-            return confirm_hist(dict(via=via, v=e["pre"], ops=[dict(op=fn, a=e["a"], b=e["b"])]))
+            return confirm_hist(dict(via=via, v=e["pre"], ops=expand(fn, e["a"], e["b"]) + rd(0)))
         c.triage(xm, xclassify, xconfirm, per_class=1, total=3)
         for kk, v in c.cov.get("mismatch_classes", {}).items():
             classes[kk] = classes.get(kk, 0) + v
     c.cov["mismatch_classes"] = classes
 
-    # ---- coverage
+    # ---- binding self-test, AFTER the verdict phase and never in its way: one returned value of a history that
+    # validated cleanly is corrupted; TLC must reject that event (and nothing before it)
+    if c.violations:
+        c.cov["binding_selftest"] = "skipped: the run has violations"
+    else:
+        badidx = {i for i, _ in mism}
+        resets = [i for i, ln in enumerate(events) if '"TraceReset"' in ln[:40]] + [len(events)]
+        pick = None
+        for a, b in zip(resets, resets[1:]):
+            rds = [i for i in range(a, b) if events[i][:12] in ('{"op":"Get",', '{"op":"SQN",') and i > a + 2]
+            if rds and not any(a <= i < b for i in badidx):
+                pick = (a, b, rds[len(rds) // 2]); break
+        if pick is None:
+            c.note("binding self-test skipped: no cleanly validated history with a read")
+        else:
+            a, b, k = pick
+            sl = list(events[a:b]); ce = json.loads(sl[k - a]); ce["ret"] ^= 1; sl[k - a] = json.dumps(ce)
+            bm = [i for i, _ in c.validate("Trace_C11", sl, stateful=True, shards=1)]
+            c.cov["traces_validated_against_impl"] -= len(sl)
+            if bm[:1] != [k - a]:
+                c.note("binding self-test FAILED: corrupted call %d of a clean history, TLC rejected %r" % (k - a, bm))
+                raise Infra("binding self-test failed: corrupted event %d of a clean history, TLC rejected %r" % (k - a, bm))
+            c.cov["binding_selftest"] = "value returned by %s() in call %d of a cleanly validated history corrupted by one bit: rejected by TLC at exactly that call" % (ce["op"], k - a)
+
+    # ---- coverage (python mirror of the operators, for counting only)
     dkeys = {(o["op"], o["a"], o["b"]) for o in dops}; cset = set(chunks)
     prev = None
     for ln in events:
         e = json.loads(ln)
-        if e["op"] in ("TraceReset", "New", "SetRaw"):
-            prev = e["get"] if e["op"] != "TraceReset" else None
-            continue
-        if prev is not None and not ((e["op"], e["a"], e["b"]) in dkeys and (prev >> 16) in cset):
-            c.count_distinct((prev, e["op"], e["a"], e["b"]))
-        prev = e["get"]
+        op = e["op"]
+        if op == "TraceReset" or op == "New": prev = None; continue
+        if op == "SetRaw": prev = e["a"]; continue
+        if prev is not None and not ((op, e["a"], e["b"]) in dkeys and (prev >> 16) in cset):
+            c.count_distinct((prev, op, e["a"], e["b"]))
+        if prev is None and op == "Get": prev = e["ret"]
+        else: prev = model(op, e["a"], e["b"], prev)
     digest_pairs = len(chunks) * 65536 * len(dops)
     c.cov["distinct_nontrivial"] = digest_pairs + len(c._distinct)
     c._distinct = set()
-    c.cov["rule"] = ("case = one public operation executed on a real Count from a known value and judged by TLC; distinct = distinct (value before, operation, arguments) "
+    c.cov["rule"] = ("case = one public call executed on a real Count from a tracked value (writes are judged through the reads that follow them, in varying number and order); distinct = distinct (value before, operation, arguments) "
                      "triples: %d covered by digest conformance (%d chunks x 65536 values x %d operation/argument combinations) + %d further triples among the individually validated events" % (
                          digest_pairs, len(chunks), len(dops), c.cov["distinct_nontrivial"] - digest_pairs))
     c.cov["edges_replayed"] = n_edges
@@ -234,10 +295,11 @@ def run(c):
         c.sample(events[i])
     c.sample(devents[len(devents) // 2])
     c.sample(hists[len(by_src) + nsimh // 2] if nsimh else hists[0])
-    c.assumptions += ["the counter is used sequentially (one event per call)",
+    c.cov["read_events"] = sum(1 for ln in events if ln[:12] in ('{"op":"Get",', '{"op":"SQN",') or ln.startswith('{"op":"Overflow",'))
+    c.assumptions += ["the counter is used sequentially (one event per call); the driver performs no reads of its own between the calls of a history",
                       "states are placed through Set() or the verif raw hook with values < 2^24 (a raw word with a non-zero top octet is unreachable through the public API and is not judged)",
                       ("digest conformance over all 2^24 values" if thorough else "digest conformance over %d of 256 chunks in quick (all in thorough)" % len(chunks))
-                      + " for AddOne, the reads, SetSQN/SetOverflow/Set with boundary arguments"]
+                      + " for AddOne, runs of 2, 3 and 257 increments, the reads, SetSQN/SetOverflow/Set with boundary arguments"]
 
 
 if __name__ == "__main__":
